@@ -626,7 +626,7 @@ pub fn view(n: &NodeState) -> String {
     let usn = l.unstable.snapshot.as_ref().map(|s| format!("{}:{}", s.get_metadata().index, s.get_metadata().term)).unwrap_or_else(|| "-".into());
     write!(
         s,
-        " | S t={} v={} r={} l={} c={} a={} p={} li={} lt={} fi={} pci={} lte={} ee={} he={} rt={} pr={} prs={} us={} lim={} prio={} uo={} ul={} usn={} sf={} sl={} gc={} {}",
+        " | S t={} v={} r={} l={} c={} a={} p={} li={} lt={} fi={} pci={} lte={} ee={} he={} rt={} pr={} prs={} us={} lim={} prio={} uo={} ul={} usn={} sf={} sl={} shs={},{},{} gc={} {}",
         r.term,
         r.vote,
         role(r.state),
@@ -652,6 +652,9 @@ pub fn view(n: &NodeState) -> String {
         usn,
         n.store.first_index().unwrap(),
         n.store.last_index().unwrap(),
+        n.store.rl().hard_state().term,
+        n.store.rl().hard_state().vote,
+        n.store.rl().hard_state().commit,
         r.group_commit() as u8,
         raft::verif::node::view(r)
     )
